@@ -57,6 +57,35 @@ Theorem C11_aligned_pusi_ser : forall pkt p, length pkt = 188%nat -> wf p -> has
 Proof. exact aligned_pusi_ser. Qed.
 Print Assumptions C11_aligned_pusi_ser.
 
+(* a transport packet carries only the first n bytes of a PES packet: cutting a well-formed start anywhere at or
+   after the end of its header decodes to the same header with the data that made it into the packet *)
+Theorem C11_decode_ser_prefix : forall p n, wf p -> has_optional_header (stream_id p) = true -> len (ser_head p) <= n ->
+  Pes.new_pes_header (takeN n (ser_pes p)) =
+  Ok (Pes.mk_header 1 (aligned p) (stream_id p) (plen p) (ts_flags (ts p)) (pts_of p) (dts_of p)
+                    (takeN (n - len (ser_head p)) (data p))).
+Proof. exact decode_ser_prefix. Qed.
+Print Assumptions C11_decode_ser_prefix.
+
+(* the transport packet as a serialiser: header bytes b0..b3 (payload bit set, adaptation-field bit as given),
+   optional adaptation field of any length, then the first n bytes of the PES packet, 188 bytes in all:
+   packet.PESHeader yields those bytes exactly when PUSI (bit 6 of b1) is set, and AlignedPUSI yields the PES
+   data carried by this packet exactly when PUSI and data_alignment_indicator are set *)
+Theorem C11_packet_carries_pes : forall b0 b1 b2 b3 af p n, wf p -> has_optional_header (stream_id p) = true ->
+  len (ser_head p) <= n -> wf_tspkt b3 af (takeN n (ser_pes p)) ->
+  let pkt := ser_tspkt b0 b1 b2 b3 af (takeN n (ser_pes p)) in
+  (Pes.pkt_pes_header pkt = Ok (takeN n (ser_pes p)) <-> N.testbit b1 6 = true) /\
+  Pes.aligned_pusi pkt =
+    if N.testbit b1 6 && aligned p then Some (takeN (n - len (ser_head p)) (data p)) else None.
+Proof. exact packet_carries_pes. Qed.
+Print Assumptions C11_packet_carries_pes.
+
+(* ts_payload, used above, is what the packet serialiser puts after header and adaptation field *)
+Theorem C11_ts_payload_ser : forall b0 b1 b2 b3 af pay, wf_tspkt b3 af pay ->
+  ts_payload (ser_tspkt b0 b1 b2 b3 af pay) = Some pay /\ pusi (ser_tspkt b0 b1 b2 b3 af pay) = N.testbit b1 6 /\
+  length (ser_tspkt b0 b1 b2 b3 af pay) = 188%nat.
+Proof. exact ts_payload_ser. Qed.
+Print Assumptions C11_ts_payload_ser.
+
 (* C04 end to end: PTS and DTS written with InsertPTS into the header bytes of any PES start that announces both
    are read back unchanged by NewPESHeader; nothing but the ten timestamp bytes changes *)
 Theorem C11_pes_pts_dts_readback : forall b v1 v2, (19 <= length b)%nat ->
@@ -100,3 +129,12 @@ Example C11_nonvacuous :
   /\ Pes.new_pes_header (ser_pes (mk_pes 190 3 0 0 NoTs [] [255; 255; 255])) = Ok (Pes.mk_header 1 true 190 3 0 0 0 [255; 255; 255]).
 Proof. cbv zeta. split; [|split; [|split]]; try (vm_compute; reflexivity).
   unfold wf, is_bytes, is_byte. cbn. repeat split; try lia; repeat constructor; lia. Qed.
+
+(* non-vacuity of the packet theorems: a 188-byte packet with a 7-byte adaptation field carrying the first 176 bytes
+   of a PES packet (header 19 bytes, 157 of 300 payload bytes) *)
+Example C11_packet_nonvacuous :
+  let p := mk_pes 224 0 132 0 (PtsDts 900000 896997) [] (repeat 170 300) in
+  let af := Some [64; 255; 255; 255; 255; 255; 255] in
+  wf_tspkt 53 af (takeN 176 (ser_pes p)) /\ len (ser_head p) = 19 /\
+  Pes.aligned_pusi (ser_tspkt 71 65 0 53 af (takeN 176 (ser_pes p))) = Some (repeat 170 157).
+Proof. cbv zeta. repeat split; vm_compute; reflexivity. Qed.
